@@ -5,6 +5,7 @@ mod c07;
 mod c13;
 mod c14;
 mod c16;
+mod c17;
 mod c18;
 mod c02;
 mod c19;
@@ -21,9 +22,22 @@ use common::*;
 
 fn main() {
   let args: Vec<String> = std::env::args().collect();
-  if args.len() < 5 && !(args.len() >= 2 && (args[1] == "eval" || args[1] == "sess" || args[1] == "steps")) {
+  if args.len() < 5 && !(args.len() >= 2 && (args[1] == "eval" || args[1] == "fsm" || args[1] == "sess" || args[1] == "steps")) {
     eprintln!("usage: mvh <prop> <seed> <quick|thorough|replay> <outdir> [replay-file]");
     std::process::exit(2);
+  }
+  if args.len() >= 2 && args[1] == "fsm" {
+    std::panic::set_hook(Box::new(|_| {}));
+    let mut text = String::new();
+    use std::io::Read;
+    std::io::stdin().read_to_string(&mut text).unwrap();
+    for l in text.lines() {
+      if l.trim().is_empty() { continue; }
+      let src = l.replace("\\n", "\n");
+      let (r, steps) = interp::eval_fsm(&src, 50);
+      println!("{} | {:?}", match r { Ok(v) => interp::canon(&v), Err(e) => format!("err:{}", e) }, steps);
+    }
+    return;
   }
   if args.len() >= 2 && args[1] == "eval" {
     // probing aid: one program per stdin line (literal \n for newlines); prints the canonical observation
@@ -99,6 +113,7 @@ fn main() {
     "C13" => (c13::generate, c13::exec),
     "C14" => (c14::generate, c14::exec),
     "C16" => (c16::generate, c16::exec),
+    "C17" => (c17::generate, c17::exec),
     "C18" => (c18::generate, c18::exec),
     "C02" => (c02::generate, c02::exec),
     "C19" => (c19::generate, c19::exec),
